@@ -523,6 +523,53 @@ func runJoinScenario(w *ndWriter, c joinCase, seed int64, steps int) {
 		}
 		emit("join.closed", fmt.Sprintf(`"cycle":%d,"hung":%v,"before":%d,"after":%d,"base_alive":%v,"base_done":%v,"sample":%q`, cy, hung, before, after, alive, baseDone, sample))
 	}
+	// sometimes the SOURCE base stops first while a fresh join is alive (spec/JoinLife.tla: shutdown never goes
+	// sideways): the join stays alive, keeps its last filter and keeps following the destination
+	srcClosed := false
+	if rng.Intn(3) == 0 {
+		if nrun, err := restartJoin(ctx, c, run); err == nil {
+			run = nrun
+			prev = ""
+			snapshot("end")
+			run.src.Close()
+			srcHung := false
+			select {
+			case <-run.src.Done():
+			case <-time.After(3 * time.Second):
+				srcHung = true
+			}
+			srcClosed = true
+			idle()
+			time.Sleep(2 * time.Millisecond)
+			idle()
+			joinDone := isClosed(run.joinDone)
+			for n := 2 + rng.Intn(3); n > 0 && !joinDone; n-- {
+				mutatePods()
+			}
+			if !joinDone {
+				snapshot("srcclosed")
+				joinDone = isClosed(run.joinDone)
+			}
+			run.stopEvents()
+			closed := make(chan struct{})
+			go func() { run.closeJoin(); close(closed) }()
+			hung := false
+			select {
+			case <-closed:
+			case <-time.After(3 * time.Second):
+				hung = true
+			}
+			select {
+			case <-run.joinDone:
+			case <-time.After(3 * time.Second):
+				hung = true
+			}
+			emit("join.srcclosed", fmt.Sprintf(`"join_done":%v,"src_hung":%v,"hung":%v,"dst_done":%v`, joinDone, srcHung, hung, isClosed(run.dst.Done())))
+		} else {
+			emit("join.error", fmt.Sprintf(`"err":%q`, err.Error()))
+			return
+		}
+	}
 	// first only the destination base stops: a join requested now fails (or is born dead), and whatever it had
 	// already created on the still running source side must be gone again
 	idle()
@@ -565,7 +612,9 @@ func runJoinScenario(w *ndWriter, c joinCase, seed int64, steps int) {
 	}
 	emit("join.halfstopped", fmt.Sprintf(`"res":%q,"before":%d,"dst_closed":%d,"after":%d,"sample":%q`, halfRes, beforeLate, afterDstClosed, afterHalf, sampleHalf))
 	// shut the other bases down
-	run.src.Close()
+	if !srcClosed {
+		run.src.Close()
+	}
 	if run.mid != nil {
 		run.mid.Close()
 	}
